@@ -148,6 +148,9 @@ HARNESSES = [
     H("k_normal_early_return_keeps_lazy_state", "K-normal-early", ["C01", "C02"], fns=["compress_normal (first token decision and early return after flush_block)"], cost=80, timeout=900,
       strength="B(3 concrete input bytes at window position 40000, one token decision; complete in flags, window bits, dictionary size, matcher result, flush_block result)",
       note="find_match / record_match / record_literal / flush_block replaced by contract models"),
+    H("k_normal_rle_first_token", "K-normal-early", ["C01", "C02", "C10", "C12"], fns=["compress_normal (RLE branch: run detection against the previous byte, history guard)"], cost=80, timeout=900,
+      strength="B(3 symbolic input bytes at window position 40000, one token decision; complete in input bytes, previous byte, flags with RLE set, window bits, dictionary size)",
+      note="find_match / record_match / record_literal / flush_block replaced by contract models"),
     # ---- K-huff ----
     H("k_enforce_max_code_size_kraft", "K-huff", ["C10"], fns=["HuffmanOxide::enforce_max_code_size"], cost=50, timeout=900,
       strength="B(<= 9 codes, tree depths <= 9, limit 7; complete over every depth histogram of a full binary tree in that range)"),
